@@ -25,7 +25,10 @@ def parseBasic : List String → Option Op
   | ["R", c, k, is] => do pure (.R (← c.toNat?) (← k.toNat?) (← parseNats is))
   | ["U", c] => c.toNat?.map .U
   | ["T", t] => t.toNat?.map .T
-  | ["S", t, id] => do pure (.S (← t.toNat?) (← id.toNat?))
+  | ["S", t, id] => do pure (.S (← t.toNat?) (← id.toNat?) none)
+  | ["S", t, id, p] => do
+    if p.startsWith "^" then pure (.S (← t.toNat?) (← id.toNat?) (some (← (dropS p 1).toNat?))) else none
+  | ["TS", t, j] => do pure (.TS (← t.toNat?) (← j.toNat?))
   | ["P", id] => id.toNat?.map .P
   | ["IM"] => some .IM
   | ["IT"] => some .IT
@@ -73,9 +76,16 @@ def parseKN (s : String) : Option (List (Nat × Nat)) := do
 
 def parseObs : List String → Option Spec.Obs
   | status :: gates :: sync :: obsv :: cbs :: spans :: props :: _ => do
-    let spans ← if spans == "-" then some [] else parseNats spans
+    let spanToks := if spans == "-" then [] else spans.splitOn ","
+    let spanPar ← spanToks.mapM fun e =>
+      match e.splitOn "^" with
+      | [a] => a.toNat?.map (·, none)
+      | [a, "?"] => a.toNat?.map (·, some 4000000000)      -- a parent the exporter never saw
+      | [a, b] => do pure (← a.toNat?, some (← b.toNat?))
+      | _ => none
+    let spans := spanPar.map (·.1)
     pure { status := status, gates := if gates == "-" then [] else gates.splitOn ",",
-           sync := ← parseKV sync, obsv := ← parseKV obsv, cbs := ← parseKN cbs, spans := spans, props := ← parseKN props }
+           sync := ← parseKV sync, obsv := ← parseKV obsv, cbs := ← parseKN cbs, spans := spans, spanPar := spanPar, props := ← parseKN props }
   | _ => none
 
 def joinOr (l : List String) : String := if l.isEmpty then "-" else ",".intercalate l
@@ -113,7 +123,9 @@ def renderModel (x : Sim) : String :=
   let spans := Spec.sortNat (x.ts.recorded.map (·.2))
   let props := (sortBy x.props).map fun (p, v) => s!"p{p}={v}"
   " ".intercalate [status, joinOr x.gates.reverse, joinOr sync, joinOr obsv, joinOr cbs,
-                   joinOr (spans.map toString), joinOr props]
+                   joinOr (spans.map fun s => match lookup x.spanInfo s with
+                     | some (_, some p) => s!"{s}^{p}"
+                     | _ => toString s), joinOr props]
 
 def step (_ : Unit) (toks : List String) : Unit × Option Verdict :=
   let (inp, obsT) := splitObs toks
